@@ -134,6 +134,11 @@ type mwSignReq struct {
 }
 
 func (u *mwUpstream) fault(op string) bool {
+	// every call of the underlying-agent client holds the client's own mutex
+	// around its request/reply exchange on the connection (agent.NewClient)
+	vAccess("acqW", "client.mu")
+	vAccess("wr", "conn")
+	vAccess("relW", "client.mu")
 	u.calls++
 	u.log = append(u.log, op)
 	if u.failAt >= 0 && u.calls-1 == u.failAt {
@@ -284,9 +289,9 @@ type mwConn struct {
 	closed bool
 }
 
-func (c *mwConn) Read(p []byte) (int, error)  { return 0, io.EOF }
-func (c *mwConn) Write(p []byte) (int, error) { return len(p), nil }
-func (c *mwConn) Close() error                { c.closed = true; return nil }
+func (c *mwConn) Read(p []byte) (int, error)  { vAccess("wr", "conn"); return 0, io.EOF }
+func (c *mwConn) Write(p []byte) (int, error) { vAccess("wr", "conn"); return len(p), nil }
+func (c *mwConn) Close() error                { vAccess("wr", "conn"); c.closed = true; return nil }
 
 func mwNewServer(up *mwUpstream, noUpstream bool) *Server {
 	s := &Server{
